@@ -51,12 +51,14 @@ type env struct {
 	keyFile  string
 	thorough bool
 	verbose  bool
+	comboMu  sync.Mutex
+	combos   map[string]struct{}
 	inflight *inflightLog
 }
 
 // Run executes the front and records into run.
 func Run(run *ev.Run) {
-	e := &env{run: run, targets: targets(), thorough: run.Tier == ev.Thorough}
+	e := &env{run: run, targets: targets(), thorough: run.Tier == ev.Thorough, combos: map[string]struct{}{}}
 	run.Assume("client front: every helper call has its own fake provider, its own *http.Client and a context with a 60 s deadline; a call that has not returned after 150 s is inconclusive",
 		"client front: (nil value, nil error) results are grey (counted as ok-nil): the statement only demands termination without panic")
 
@@ -116,6 +118,7 @@ func Run(run *ev.Run) {
 	e.inflight.done()
 	run.Extra("client_front", map[string]any{
 		"cases": n, "targets": len(e.targets), "body_classes": len(bodyClasses),
+		"wrong_typed_member_combinations_served": len(e.combos), "wrong_typed_member_combinations_space": wrongTypeSpace(e.newWorld(issuers[0], run.CaseRand(stream+2, 0), false)),
 		"rule": "a case is non-trivial when the provider actually served the answer under test to the helper; distinct = (target, endpoint, status, body class, content-type class, transport, outcome class)",
 	})
 }
@@ -309,6 +312,11 @@ func (e *env) runCase(worker, idx int) {
 	run.Count("client_outcome", tg.name+"|"+outcome)
 	run.Count("client_error_class", ec)
 	run.Count("client_answers_by_class", a.Class)
+	if a.Combo != "" && served > 0 {
+		e.comboMu.Lock()
+		e.combos[a.Combo] = struct{}{}
+		e.comboMu.Unlock()
+	}
 	run.Count("client_answers_by_status", fmt.Sprint(a.Status))
 	run.Count("client_answers_by_endpoint", endpoint)
 	run.Count("client_answers_by_transport", a.Transport)
